@@ -12,7 +12,7 @@ import PyxModel.Oal.LexGen
                  or `none` when an index is out of range
 -/
 namespace Pyx.Driver.C13
-open Pyx Pyx.Sexp Pyx.Oal
+open Pyx Pyx.Sexp Pyx.OalLex
 
 def tokSexp (t : Tok) : Sexp :=
   list [sym (String.ofList t.kind), str (String.ofList t.lexeme), ofNat t.start, ofNat t.stop, ofNat t.line,
